@@ -59,7 +59,10 @@ func (r *runner) eval(c Case) []Problem {
 		return nil
 	}
 	evs := runCase(c)
-	probs := monitor(evs)
+	probs, accepted := monitor(evs)
+	for _, a := range accepted {
+		r.res.Hit("accepted:" + a)
+	}
 	for _, e := range evs {
 		if e.Kind == "hang" {
 			r.hangs++
